@@ -147,7 +147,9 @@ class BitStringBitReader(BitReader):
         return self._bit_stream_read(fmt_string)
 
     def read_bool(self):
-        return self._bit_stream_read('bool')
+        # A sized format, so that running out of bits is a bitstring ReadError (hence
+        # a BitReadError) like for every other read, not the ValueError of 'bool'.
+        return self._bit_stream_read('uint:1') == 1
 
     def read_bin(self, nbits):
         return self._bit_stream_read('bin:{}'.format(nbits))
